@@ -11,6 +11,7 @@ import (
 	"bufio"
 	"encoding/json"
 	"fmt"
+	"hash/fnv"
 	"os"
 	"os/exec"
 	"path/filepath"
@@ -42,6 +43,32 @@ func init() {
 	}
 	harnessDir = filepath.Join(verifDir, "harness")
 	buildDir = filepath.Join(verifDir, ".build")
+	outRoot = verifDir
+	if repo := os.Getenv("VERIF_REPO"); repo != "" {
+		// a scratch tree (mutant, seeded change, reverted fix): its binaries, run directories,
+		// evidence and replay files live apart from those of /repo's own tree, so that such a run
+		// can neither overwrite the evidence of the real tree nor collide with a concurrent run
+		h := fnv.New32a()
+		_, _ = h.Write([]byte(repo))
+		tag := fmt.Sprintf("%08x", h.Sum32())
+		if t := os.Getenv("VERIF_SCRATCH_TAG"); t != "" {
+			tag = t // lets the calling tool remove the directory afterwards
+		}
+		buildDir = filepath.Join(verifDir, ".build", "scratch-"+tag)
+		outRoot = buildDir
+	}
+}
+
+// outRoot is where evidence/ and replays/ are written (verifDir for /repo's own tree).
+var outRoot string
+
+var builtBin string // removed on exit: every invocation links its own test binary
+
+func exit(code int) {
+	if builtBin != "" {
+		_ = os.Remove(builtBin)
+	}
+	os.Exit(code)
 }
 
 func fileExists(p string) bool {
@@ -87,7 +114,7 @@ func goEnv() []string {
 
 func fatal(code int, format string, args ...any) {
 	fmt.Fprintf(os.Stderr, format+"\n", args...)
-	os.Exit(code)
+	exit(code)
 }
 
 // build compiles the test binary; returns its path.
@@ -95,7 +122,10 @@ func build(pkg, out string, race bool) (string, error) {
 	if err := os.MkdirAll(buildDir, 0o755); err != nil {
 		return "", err
 	}
-	bin := filepath.Join(buildDir, out)
+	// a name of its own per invocation: two checks started at the same time must not link over
+	// each other's (running) binary
+	bin := filepath.Join(buildDir, fmt.Sprintf("%s.%d", out, os.Getpid()))
+	builtBin = bin
 	args := []string{"test", "-c", "-tags", "verif", "-o", bin}
 	if race {
 		args = append(args, "-race")
@@ -357,7 +387,7 @@ func main() {
 		if len(args) < 3 {
 			fatal(2, "--replay needs a file")
 		}
-		os.Exit(replay(bin, prop, args[2]))
+		exit(replay(bin, prop, args[2]))
 	}
 	tier := args[1]
 	if tier != "quick" && tier != "thorough" {
@@ -481,7 +511,7 @@ func main() {
 	}
 	wg.Wait()
 
-	os.Exit(report(prop, tier, seed, meta, all, crashes, inconclusive, runDir, time.Since(start)))
+	exit(report(prop, tier, seed, meta, all, crashes, inconclusive, runDir, time.Since(start)))
 }
 
 type crash struct {
@@ -593,7 +623,7 @@ func report(prop, tier string, seed int64, meta propMeta, all []result, crashes 
 	own := 0
 	cross := map[string]int{}
 	knownHit := map[string]int{}
-	replayDir := filepath.Join(verifDir, "replays", prop)
+	replayDir := filepath.Join(outRoot, "replays", prop)
 	var vioLines []string
 	for _, r := range all {
 		for _, f := range r.FP {
@@ -754,9 +784,9 @@ func report(prop, tier string, seed int64, meta propMeta, all []result, crashes 
 		"property_id": prop, "tier": tier, "seed": seed, "level": meta.Level, "coverage": cov,
 		"assumptions": meta.Assumptions, "wall_s": wall.Seconds(), "violations": own,
 	}
-	_ = os.MkdirAll(filepath.Join(verifDir, "evidence"), 0o755)
+	_ = os.MkdirAll(filepath.Join(outRoot, "evidence"), 0o755)
 	b, _ := json.MarshalIndent(ev, "", " ")
-	if err := os.WriteFile(filepath.Join(verifDir, "evidence", prop+".json"), b, 0o644); err != nil {
+	if err := os.WriteFile(filepath.Join(outRoot, "evidence", prop+".json"), b, 0o644); err != nil {
 		fatal(2, "evidence: %v", err)
 	}
 
